@@ -78,6 +78,9 @@ def run(tier, seed):
     C.write_gen('Gen/ServiceLocks.v', svclocks.translate(C.REPO))
   except Exception as e:  # pylint: disable=broad-except
     broke = 'translator harness/translate/svclocks.py refused vizier_service.py: %r' % (e,)
+  from harness import svcrun as _svcrun
+  hb_ = _svcrun.regenerate_handler_sources()
+  broke = ((broke or '') + ' ' + (hb_ or '')).strip() or None
   C.standard_proof_step(rep, 'C04')
   broke = ((broke or '') + ' ' + (rep.proof_broken or '')).strip() or None
   concrete = False
@@ -293,6 +296,97 @@ def run(tier, seed):
             concrete = True
             rep.violation('lost update of persisted algorithm state: %d overlapping algorithm calls started from the stored counters %r and left %d '
                           '(every serial order leaves %d)' % (ncalls, _Counter.seen, got, base + ncalls), dict(obj, outcomes=[o_[:2] for o_ in results]))
+
+  # ---- focused stage: two studies of one owner served at the same time by hosted algorithms that READ their study through the
+  # policy supporter (as the designer policies do: completed trials, then active trials).  Study 1 has one ACTIVE trial, study 2
+  # has three; whatever the interleaving, every read a policy makes must show the trials of the study its request is for (as in
+  # both serial orders) - per-request state kept on an object shared by the studies shows up here.
+  class _Reader(_pythia.Policy):
+    log = []
+
+    def __init__(self, supporter):
+      self._supporter = supporter
+
+    def suggest(self, request):
+      reads = []
+      for st_ in (_vz.TrialStatus.COMPLETED, _vz.TrialStatus.ACTIVE, _vz.TrialStatus.ACTIVE):
+        reads.append(len(self._supporter.GetTrials(status_matches=st_)))
+      cfg_md = self._supporter.GetStudyConfig(request.study_guid).metadata.ns('which').get('study', default='?')
+      _Reader.log.append((request.study_guid, tuple(reads), cfg_md))
+      return _pythia.SuggestDecision([_vz.TrialSuggestion({'x': 0.5}) for _ in range(request.count)], _vz.MetadataDelta())
+
+    def early_stop(self, request):
+      return _pythia.EarlyStopDecisions([], _vz.MetadataDelta())
+
+    @property
+    def should_be_cached(self):
+      return False
+
+  class _ReaderFactory(_pythia.PolicyFactory):
+    def __call__(self, problem, algorithm, supporter, study_name):
+      return _Reader(supporter)
+
+  for backend in (('ram', 'sqlmem') if tier != 'quick' else ('ram',)):
+    seen_exec = set()
+    for first in (0, 1):
+      for j in range(0, 16):
+        serv_, holder_, proxy_ = svc.make_servicer(backend, recycle=True)
+        serv_.default_pythia_service = _ps.PythiaServicer(serv_, _ReaderFactory())
+        prefix = [('CreateStudy', 1, 1, False, 'SS_ACTIVE', [(1, True)]), ('CreateStudy', 1, 2, False, 'SS_ACTIVE', [(1, True)]),
+                  ('SuggestTrials', 1, 1, 1, 1, ('deliver', [], [], [])), ('SuggestTrials', 1, 2, 1, 3, ('deliver', [], [], []))]
+        for rpc in prefix:
+          svc.apply_rpc(serv_, holder_, rpc)
+        a = ('SuggestTrials', 1, 1, 2, 1, ('deliver', [], [], []))
+        b = ('SuggestTrials', 1, 2, 2, 1, ('deliver', [], [], []))
+        sched_ = conc.Sched()
+        conc.instrument(serv_, proxy_, sched_)
+        _Reader.log = []
+        results, deadlock, executed = sched_.run([(lambda rpc=rpc: svc.apply_rpc(serv_, holder_, rpc)) for rpc in (a, b)],
+                                                 [first] * j + [1 - first] * 60 + [first] * 60)
+        proxy_.hook = None
+        ex = tuple(executed)
+        if ex in seen_exec:
+          continue
+        seen_exec.add(ex)
+        obj = {'backend': backend, 'prefix': prefix, 'rpcs': [a, b], 'schedule': list(ex), 'algorithm': 'reads its study through the policy supporter'}
+        rep.case({'rpcs': [a[:5], b[:5]], 'schedule': list(ex), 'stage': 'two-studies-supporter-reads'}, 0 < j)
+        rep.count('two_studies_supporter_reads')
+        if deadlock:
+          concrete = True
+          rep.violation('deadlock: no runnable thread although calls are unfinished', obj)
+          continue
+        want_ = {svc.study_name(1, 1): (0, 1, 1), svc.study_name(1, 2): (0, 3, 3)}
+        wrong_ = [(g_, rd_) for g_, rd_, _m in _Reader.log if want_.get(g_) != rd_]
+        if any(o_[0] != 'Done' for o_ in results):
+          concrete = True
+          rep.violation('a suggestion call on one of two studies fails solely because of the interleaving', dict(obj, outcomes=[o_[:2] for o_ in results]))
+        elif wrong_ or len(_Reader.log) != 2:
+          concrete = True
+          rep.violation('a hosted algorithm serving one study was shown the trials of another study of the same owner (numbers of COMPLETED / ACTIVE / '
+                        'ACTIVE trials it read, per request) - in both serial orders each request sees its own study',
+                        dict(obj, reads=[(g_, list(rd_)) for g_, rd_, _m in _Reader.log], expected={k_: list(v_) for k_, v_ in want_.items()}))
+
+  # ---- focused stage: the study is stopped / completed / deleted while a suggestion call that needs the algorithm is under way:
+  # whatever the call answers, it leaves no unfinished operation, and after the study is active again the worker is served
+  for (other, tag_) in ((('SetStudyState', 1, 1, 'SS_INACTIVE'), 'inactive'), (('SetStudyState', 1, 1, 'SS_COMPLETED'), 'completed')):
+    for backend in (('ram', 'sqlmem') if tier != 'quick' else ('ram',)):
+      seen_exec = set()
+      for j in range(0, 16):
+        prefix = [('CreateStudy', 1, 1, False, 'SS_ACTIVE', [(1, True)])]
+        a = ('SuggestTrials', 1, 1, 1, 2, ('deliver', [11, 12], [], []))
+        res = conc.run_concurrent(backend, prefix, [a, other], [0] * j + [1] * 40 + [0] * 60)
+        ex = tuple(res['executed'])
+        if ex in seen_exec or res['deadlock']:
+          continue
+        seen_exec.add(ex)
+        obj = {'backend': backend, 'prefix': prefix, 'rpcs': [a, other], 'schedule': list(ex)}
+        rep.case({'rpcs': [a[:5], other], 'schedule': list(ex), 'stage': 'state-change-during-suggest'}, 0 < j)
+        rep.count('state_change_during_suggest_' + tag_)
+        unfinished = [x for k_, nn in svcmon.nodes_of(res['snapshot']).items() for x in nn['ops'] if not x['done']]
+        if unfinished:
+          concrete = True
+          rep.violation('SuggestTrials overlapped by SetStudyState leaves an unfinished operation (the worker is answered from it for ever)',
+                        dict(obj, outcomes=[o[:2] for o in res['outcomes']], unfinished=[(x['client'], x['num']) for x in unfinished]))
 
   bad = C.run_cases('C04', 'conc', svc.HDR + 'From VZ Require Import Model.Conc.\n', cases, 'conc_case_ok', shard=60)
   rep.disagreements += len(bad)
